@@ -300,6 +300,13 @@ for nm, fn, pr, bd, uw in [("l2_listen_token_log_b19200", "do_listen_token", ["C
     h(nm, "fdl_active.rs", AV, pr, panic_props=pr + ["C05"], timeout_s=1200, mem_gb=10, weight=2, stubbing=True, functions=L2F + ["FdlActiveStation::" + fn], stubs=L2STUBS,
       bounds=(LB % bd) + "; unwind %d" % uw, obligation="as the 500 kbit/s variant of this step; exercises the rounding of the 33-bit pause, slot time, token-lost time-out, transmission time and hold time")
 
+for nm, fn in [("l2_bytes_listen_token_t", "do_listen_token"), ("l2_bytes_active_idle_t", "do_active_idle"), ("l2_bytes_await_status_response_t", "do_await_status_response")]:
+    h(nm, "fdl_active.rs", AV, ["C01", "C05"], panic_props=["C01", "C05", "C16"], tier="thorough", timeout_s=3600, mem_gb=14, weight=3, stubbing=True,
+      functions=L2F + ["FdlActiveStation::" + fn, "ProfibusPhy::{receive_telegram,receive_all_telegrams,poll_pending_received_bytes} (real default methods)", "Telegram::deserialize (real decoder inside the step)"],
+      stubs=L2STUBS[:2] + ["PHY = byte-level harness PHY (KPhy) with 0..=6 arbitrary received bytes"],
+      bounds="ONE poll() from ANY station state of this variant under Inv_FDL over a byte-level PHY with 0..=6 ARBITRARY received bytes (garbage, truncated and well-formed telegrams), logging enabled; baud 500 kbit/s; unwind 9",
+      obligation="end-to-end: no panic with the real decoder and receive helpers inside the step; at most one transmission, none while busy, 33-bit pause, none when new bytes became visible; Inv_FDL preserved (independent check of the decoder -> helpers -> station composition)")
+
 for nm, fn, pr in [("l2_use_token_3apps_t", "do_use_token", ["C01", "C05", "C13", "C15"]), ("l2_await_data_response_3apps_t", "do_await_data_response", ["C01", "C05", "C06", "C13", "C15"])]:
     h(nm, "fdl_active.rs", AV, pr, panic_props=["C05"], tier="thorough", timeout_s=7200, mem_gb=16, weight=4, stubbing=True, functions=L2F + ["FdlActiveStation::" + fn], stubs=L2STUBS,
       bounds=L2BOUNDS + "; exactly 3 applications; unwind 10", obligation="as the 2-application variant, with 3 applications")
